@@ -1,4 +1,5 @@
 import FrappyProofs.Lemmas.Match
+import FrappyProofs.Lemmas.Timed
 import FrappyModel.Generated.C11
 /-
 C11 — property theorems (nothing but property theorems and their non-vacuity examples).
@@ -163,6 +164,72 @@ example : checkRun request2reply true
       | .ok s' => s'.active.isEmpty && s'.pending.isEmpty && s'.txq.isEmpty && s'.relHold.isEmpty
                     && [0, 1, 2].all (fun i => s'.released.contains i) && s.active.length == 1 && s.pending.length == 1
       | .error _ => false) = true := by
+  decide +kernel
+
+/-! ## wait_bounded -/
+
+section
+open Frappy.Client.Timed
+variable {α : Type} [DecidableEq α]
+
+/-- No caller waits longer than its time-out.  In every reachable state of the timed model — any callers, any
+requests, any behaviour of the tx / rx / disconnecting threads and of the peer, any time steps that respect the
+callers' own timers (`tick` is not enabled past the deadline of a blocked caller: the fairness assumption, on the
+callers only) — every caller has returned or raised by `t_put + put time-out + reply time-out`, and a caller still
+inside `request()` is within that bound. -/
+theorem wait_bounded (cfg : Cfg) (tbl : List (α × α)) (s : TSt α) (h : TReachable cfg tbl s) :
+    WaitBounded cfg s := by
+  intro c hc
+  have hg := treachable_inv h c hc
+  unfold good at hg
+  cases hp : c.phase <;> simp only [hp] at hg ⊢ <;> omega
+
+/-- the untimed theorems hold along every timed run -/
+theorem timed_run_matches (cfg : Cfg) (tbl : List (α × α)) (hinj : TableInj tbl) (s : TSt α)
+    (h : TReachable cfg tbl s) :
+    ReplyMatchesKnown tbl s.base ∧ NoDoubleDelivery s.base ∧ NoParking tbl s.base :=
+  ⟨reply_matches_partial tbl hinj _ (treachable_base h), (no_double_delivery tbl hinj _ (treachable_base h)).1,
+   no_parking tbl hinj _ (treachable_base h)⟩
+
+end
+
+/-- the time-outs and the queue size of the repository -/
+def frappyCfg : Frappy.Client.Timed.Cfg := ⟨putTimeoutMs, waitTimeoutMs, queueSizes.headD 0⟩
+
+/-- the configured time-outs add up to 13 s -/
+theorem frappy_timeouts : frappyCfg.putMs + frappyCfg.waitMs = 13000 := by
+  have h1 : frappyCfg.putMs = 3000 := rfl
+  have h2 : frappyCfg.waitMs = 10000 := rfl
+  omega
+
+/-- every caller of the real configuration returns within 13 s of its call -/
+theorem wait_bounded_frappy (s : Frappy.Client.Timed.TSt String)
+    (h : Frappy.Client.Timed.TReachable frappyCfg request2reply s) :
+    ∀ c ∈ s.callers, match c.phase with
+      | .done tEnd _ => tEnd ≤ c.tPut + 13000
+      | _ => s.now ≤ c.tPut + 13000 := by
+  intro c hc
+  have hb := wait_bounded frappyCfg request2reply s h c hc
+  have h13 := frappy_timeouts
+  cases hp : c.phase <;> simp only [hp] at hb ⊢ <;> omega
+
+open Frappy.Client.Timed in
+/-- non-vacuity: caller 0 is answered after 200 ms; caller 1 (same key, parked) is never answered and times out
+exactly 10 s after its put; the clock cannot be advanced past that deadline while it is still waiting. -/
+example :
+    (match trun frappyCfg request2reply {} [
+        .begin 0 (rd "m:p"), .put 0, .tick 5, .begin 1 (rd "m:p"), .put 1,
+        .base .txGet, .base (.txTest false), .base .txApply, .base .txSend,
+        .base .txGet, .base (.txTest true), .base .txApply,
+        .tick 200, .base (.peerEmit false "reply" (some "m:p") false (some 0)), .base .rxRead,
+        .base (.rxMatch (some 0) [1]), .base .rxSetEvent, .wake 0, .base .rxRequeue,
+        .tick 9800] with
+      | some s => (s.callers.map (fun c => (c.cid, c.phase)) == [(1, .waiting 1 5), (0, .done 205 true)])
+                  && (tstep frappyCfg request2reply s (.tick 1)).isNone
+                  && (match tstep frappyCfg request2reply s (.timeout 1) with
+                      | some s' => s'.callers.map (fun c => (c.cid, c.phase)) == [(1, .done 10005 false), (0, .done 205 true)]
+                      | none => false)
+      | none => false) = true := by
   decide +kernel
 
 /-! ### non-vacuity: a run with two equal-key requests, a parked one, an error reply and an update in between -/
